@@ -28,7 +28,7 @@ func init() {
 			ruleAlwaysCancels(r, "R11")
 			ruleAsTargetMatchesProducer(r, "R12")
 			ruleC05R13(r)
-			ruleClosedChannelsRecognised(r, "R14", "/wire", "/iscp")
+			ruleClosedChannelsRecognised(r, "R14", "/wire", "/iscp", "/transport/reconnect", "/transport/multi", "/transport/quic", "/transport/webtransport", "/transport/websocket", "/transport", "/internal/ch", "/encoding")
 			ruleAttemptUsesCurrentConn(r, "R15")
 		},
 	})
@@ -1042,7 +1042,7 @@ func ruleC05R13(r *Run) {
 // channel in that table and receives from it must use the two-value form — otherwise "the table was torn down" reads
 // as "a nil reply arrived", and the error that makes the caller retry after a reconnect is lost.
 func ruleClosedChannelsRecognised(r *Run, id string, pkgs ...string) {
-	r.Begin(id, "closed channels are recognised: for every map field whose element channels are closed somewhere in the module, each receive on a channel that the receiving function itself registered in that map is in comma-ok form (for a select case: the select's receive-ok result is used)", 0)
+	r.Begin(id, "closed channels are recognised: for every map field whose element channels are closed somewhere in the module, each receive on a channel that the receiving function itself registered in that map is in comma-ok form (for a select case: the select's receive-ok result is used); likewise every receive from the channel of a struct field (other than a struct{} signal) that some function closes", 10)
 	p := r.P
 	inPkgs := func(fn *ssa.Function) bool {
 		for _, pk := range pkgs {
@@ -1130,7 +1130,91 @@ func ruleClosedChannelsRecognised(r *Run, id string, pkgs ...string) {
 			})
 		})
 	}
+	// the same for channels kept in struct fields: where the module closes the channel of a field (a data channel, not a
+	// struct{} signal), every receive from that field's channel asks whether it was closed
+	closedField := map[string]string{}
+	for _, fn := range p.Funcs {
+		if !inPkgs(fn) || fn.Blocks == nil {
+			continue
+		}
+		allInstrs(fn, func(ins ssa.Instruction) {
+			cc := instrCall(ins)
+			if cc == nil {
+				return
+			}
+			if b, isB := cc.Value.(*ssa.Builtin); !isB || b.Name() != "close" {
+				return
+			}
+			ch, isCh := cc.Args[0].Type().Underlying().(*types.Chan)
+			if !isCh {
+				return
+			}
+			if st, isSt := ch.Elem().Underlying().(*types.Struct); isSt && st.NumFields() == 0 {
+				return
+			}
+			if u, isU := canonVal(cc.Args[0]).(*ssa.UnOp); isU && u.Op == token.MUL {
+				if fk := fieldKeyOfAddr(u.X); fk != "" {
+					closedField[fk] = posOf(p, ins)
+				}
+			}
+		})
+	}
+	for _, fn := range p.Funcs {
+		if !inPkgs(fn) || fn.Blocks == nil {
+			continue
+		}
+		k := 0
+		fieldOfChan := func(v ssa.Value) string {
+			c := canonVal(v)
+			if ct, isCT := c.(*ssa.ChangeType); isCT {
+				c = canonVal(ct.X)
+			}
+			if u, isU := c.(*ssa.UnOp); isU && u.Op == token.MUL {
+				return fieldKeyOfAddr(u.X)
+			}
+			return ""
+		}
+		allInstrs(fn, func(x ssa.Instruction) {
+			switch y := x.(type) {
+			case *ssa.UnOp:
+				if y.Op != token.ARROW {
+					return
+				}
+				fk := fieldOfChan(y.X)
+				where, isClosed := closedField[fk]
+				if !isClosed {
+					return
+				}
+				n++
+				k++
+				r.Check(fmt.Sprintf("%s receive#%d from field %s", fnName(fn), k, shortKey(fk)), y.CommaOk, posOf(p, y), fnName(fn), "the channel of "+fk+" is closed at "+where+"; this receive does not ask whether it was closed and takes the zero value for a message")
+			case *ssa.Select:
+				for _, st := range y.States {
+					if st.Dir != types.RecvOnly {
+						continue
+					}
+					fk := fieldOfChan(st.Chan)
+					where, isClosed := closedField[fk]
+					if !isClosed {
+						continue
+					}
+					n++
+					k++
+					used := false
+					if y.Referrers() != nil {
+						for _, ref := range *y.Referrers() {
+							if ex, isEx := ref.(*ssa.Extract); isEx && ex.Index == 1 && ex.Referrers() != nil && len(*ex.Referrers()) > 0 {
+								used = true
+							}
+						}
+					}
+					r.Check(fmt.Sprintf("%s receive#%d from field %s", fnName(fn), k, shortKey(fk)), used, posOf(p, y), fnName(fn), "the channel of "+fk+" is closed at "+where+"; this select case does not ask whether it was closed and takes the zero value for a message")
+				}
+			}
+		})
+	}
 	r.Stat("closed_tables", len(closed))
+	r.Stat("closed_fields", len(closedField))
 	r.Stat("receives_examined", n)
 	if n == 0 {
 		r.Check("receives from closed tables", true, "", "", fmt.Sprintf("%d map fields have their element channels closed; no registering function receives from one", len(closed)))
